@@ -45,7 +45,7 @@ fn exec_case(case: &Value, tag: &str) -> Value {
         Ok(v) => v,
         Err(p) => {
             let msg = p.downcast_ref::<String>().cloned().or_else(|| p.downcast_ref::<&str>().map(|s| s.to_string())).unwrap_or_default();
-            json!({"out": {"panic": msg}, "oracle": [{"sig": "panic", "msg": msg}]})
+            json!({"out": {"panic": msg.clone()}, "oracle": [{"sig": format!("panic: {}", msg.chars().take(120).collect::<String>()), "msg": msg}]})
         }
     };
     v["id"] = case["id"].clone();
